@@ -1,7 +1,213 @@
-//! C03 — not built yet (stub keeps the registry stable while modules are written in parallel).
+//! C03 — programs accepted by the type checker run without crashes or memory errors.
 
-use crate::engine::case::Prop;
+use crate::engine::case::*;
+use crate::engine::panics;
+use crate::engine::rng::hash64;
+use crate::engine::tape::Gen;
+use crate::gens::prog::{self, Layout, PG};
+use crate::props::c01::{self, gen_inputs, line_candidates};
+use crate::runners::exec::{self, Exec, Inputs, RunOpts};
+use crate::runners::front;
+use serde_json::{json, Value};
+
+pub struct C03;
+
+/// a unit-valued block (`{ let x = e  {} }`) used where a value is needed is accepted by the type
+/// checker and crashes code generation or the VM (known finding): the mutation is switched off
+pub const KF_UNIT_VALUE: &str = "C03-unit-value-accepted";
 
 pub fn prop() -> Option<&'static dyn Prop> {
-    None
+    Some(&C03)
+}
+
+struct Out {
+    fail: Option<(String, String)>,
+    accepted: bool,
+    ran: bool,
+}
+
+fn check(src: &str, inputs: &Inputs, n: u64, declared_out: Option<usize>) -> Out {
+    let mut o = Out { fail: None, accepted: false, ran: false };
+    macro_rules! fail {
+        ($sig:expr, $($arg:tt)*) => {{ o.fail = Some((format!("c03:{}", $sig), format!($($arg)*))); return o; }};
+    }
+    // 1. does the type checker accept it?  (emit_mir = parse + type check + MIR generation)
+    let mut ctx = front::exec_context(false);
+    ctx.prepare_compiler();
+    match panics::catch(|| ctx.get_compiler().unwrap().emit_mir(src).map(|_| ()).map_err(|e| front::diags_of(&e))) {
+        Err(p) => {
+            let s = p.signature();
+            let stage = if s.contains("typing") || s.contains("parser") { "front-panic" } else { "mirgen-panic" };
+            fail!(format!("{stage}:{s}"), "emit_mir: {}", p.describe());
+        }
+        Ok(Err(_)) => return o, // rejected with diagnostics: fine
+        Ok(Ok(())) => {}
+    }
+    o.accepted = true;
+    let opts = RunOpts { n, sched: false, want_state: false, want_counts: false, want_trace: false };
+    // 2. VM
+    match exec::run_vm(src, inputs, &opts) {
+        Exec::Rejected(d) => fail!("vm-rejects-accepted-program", "emit_mir accepted the program but the VM path rejects it: {}", d.first().map(|x| x.message.clone()).unwrap_or_default()),
+        Exec::NoIo => {}
+        Exec::Panic(stage, p) => {
+            if p.msg.contains("must be in the future") || p.msg.contains("on empty array") {
+                return o;
+            }
+            let st = if stage.starts_with("dsp@") { "dsp" } else { stage.as_str() };
+            fail!(format!("vm-{st}-panic:{}", p.signature()), "VM {stage}: {}", p.describe());
+        }
+        Exec::Error(stage, e) => fail!(format!("vm-error:{stage}"), "VM {stage}: {e}"),
+        Exec::Ran(a) => {
+            o.ran = true;
+            for (t, w) in a.samples.iter().enumerate() {
+                if w.len() != a.n_out as usize {
+                    fail!("output-width", "sample {t}: VM yields {} words for {} declared output channels", w.len(), a.n_out);
+                }
+            }
+            if let Some(d) = declared_out {
+                if a.n_out as usize != d {
+                    fail!("output-channels", "dsp declares {d} output words, the compiled program reports {}", a.n_out);
+                }
+            }
+        }
+    }
+    // 3. WASM
+    match exec::run_wasm(src, inputs, &opts) {
+        Exec::Rejected(d) => fail!("wasm-rejects-accepted-program", "emit_mir accepted the program but emit_wasm rejects it: {}", d.first().map(|x| x.message.clone()).unwrap_or_default()),
+        Exec::NoIo => {}
+        Exec::Panic(stage, p) => {
+            let st = if stage.starts_with("dsp@") { "dsp" } else { stage.as_str() };
+            fail!(format!("wasm-{st}-panic:{}", p.signature()), "WASM {stage}: {}", p.describe());
+        }
+        Exec::Error(stage, e) => {
+            let k = if e.contains("load_module") { "wasm-invalid-module" } else { "wasm-error" };
+            fail!(format!("{k}:{stage}"), "WASM {stage}: {e}");
+        }
+        Exec::Ran(b) => {
+            if !b.bad_rc.is_empty() {
+                fail!("wasm-trap", "WASM run_dsp returned {} at sample {}", b.bad_rc[0].1, b.bad_rc[0].0);
+            }
+            for (t, w) in b.samples.iter().enumerate() {
+                if w.len() != b.n_out as usize {
+                    fail!("output-width", "sample {t}: WASM yields {} words for {} declared output channels", w.len(), b.n_out);
+                }
+            }
+        }
+    }
+    o
+}
+
+fn finish(src: &str, inputs: &Inputs, n: u64, declared_out: Option<usize>, classes: Vec<String>, mutant: bool, cx: &Cx) -> CaseResult {
+    let key = format!("{src}\u{1}{}\u{1}{n}", inputs.describe());
+    let hash = hash64(key.as_bytes());
+    let direct = json!({"text": src, "input_kind": inputs.kind, "input_scale": inputs.scale, "n": n});
+    if cx.dry {
+        let mut r = CaseResult::discard("dry");
+        r.render = Some(direct.clone());
+        r.direct = Some(direct);
+        return r;
+    }
+    let o = check(src, inputs, n, declared_out);
+    let mut r = match &o.fail {
+        Some((s, m)) => CaseResult::fail(hash, s.clone(), m.clone()),
+        None => CaseResult::held(hash),
+    };
+    r.classes = classes;
+    r.classes.push(if o.accepted { "accepted" } else { "rejected" }.into());
+    if mutant && o.accepted {
+        r.classes.push("accepted-mutant".into());
+    }
+    if o.ran {
+        r.classes.push("ran".into());
+    }
+    r.nontrivial = (o.accepted && o.ran) || r.is_fail();
+    if cx.render || r.is_fail() {
+        r.render = Some(json!({"text": src, "inputs": inputs.describe(), "n": n}));
+    }
+    r.direct = Some(direct);
+    r
+}
+
+impl Prop for C03 {
+    fn id(&self) -> &'static str {
+        "C03"
+    }
+    fn spaces(&self, tier: Tier) -> Vec<Space> {
+        match tier {
+            Tier::Quick => vec![
+                Space { name: "gen", size: 2500, exhaustive: false, chunk: 50, case_timeout_s: 20.0, what: "generated well-typed core-language programs x run lengths" },
+                Space { name: "mutant", size: 3500, exhaustive: false, chunk: 70, case_timeout_s: 20.0, what: "generated programs after 1-2 type-changing mutations (near-miss programs)" },
+            ],
+            Tier::Thorough => vec![
+                Space { name: "gen", size: 80_000, exhaustive: false, chunk: 200, case_timeout_s: 20.0, what: "generated well-typed core-language programs x run lengths" },
+                Space { name: "mutant", size: 160_000, exhaustive: false, chunk: 200, case_timeout_s: 20.0, what: "generated programs after 1-2 type-changing mutations (near-miss programs)" },
+            ],
+        }
+    }
+    fn run(&self, space: &str, _index: u64, g: &mut Gen, cx: &Cx) -> CaseResult {
+        let (mut cfg, off) = c01::pcfg(cx);
+        // switches that only cause VM/WASM disagreement (not crashes) stay on for this property
+        cfg.raw_conditions = true;
+        cfg.modulo = true;
+        cfg.multi_maker_instances = true;
+        cfg.block_operands = true;
+        cfg.capture_destructured = true;
+        let mut pg = PG::new(g, cfg);
+        let mut p = pg.program();
+        let feat = pg.feat.clone();
+        let mut classes = feat.classes();
+        let mutant = space == "mutant";
+        if mutant {
+            let k = g.int(1, 2);
+            for _ in 0..k {
+                let m = prog::mutate(&mut p, g, !cx.excluded(KF_UNIT_VALUE));
+                classes.push(format!("mut:{m}"));
+            }
+        }
+        let src = prog::render(&p, &Layout::default());
+        let inputs = gen_inputs(g);
+        let n = *g.pick(&[4u64, 1, 8, 16]);
+        let mut r = finish(&src, &inputs, n, if mutant { None } else { Some(p.n_out) }, classes, mutant, cx);
+        r.classes.push(format!("mode:{space}"));
+        for id in off {
+            r.count(&format!("generator_switch_off:{id}"), 1);
+        }
+        r
+    }
+    fn run_direct(&self, input: &Value, cx: &Cx) -> Option<CaseResult> {
+        let t = input.get("text")?.as_str()?;
+        let inputs = Inputs { kind: input.get("input_kind").and_then(|v| v.as_u64()).unwrap_or(1) as u8, scale: input.get("input_scale").and_then(|v| v.as_f64()).unwrap_or(1.0) };
+        let n = input.get("n").and_then(|v| v.as_u64()).unwrap_or(4);
+        Some(finish(t, &inputs, n, None, vec![], false, cx))
+    }
+    fn shrink_direct(&self, input: &Value) -> Vec<Value> {
+        let Some(t) = input.get("text").and_then(|v| v.as_str()) else { return vec![] };
+        let mut out = vec![];
+        let n = input.get("n").and_then(|v| v.as_u64()).unwrap_or(4);
+        for m in [n / 2, n - 1] {
+            if m >= 1 && m < n {
+                let mut v = input.clone();
+                v["n"] = json!(m);
+                out.push(v);
+            }
+        }
+        for s in line_candidates(t).into_iter().chain(crate::engine::shrink::text_candidates(t)) {
+            let mut v = input.clone();
+            v["text"] = json!(s);
+            out.push(v);
+        }
+        out
+    }
+    fn hang_is_violation(&self) -> bool {
+        true
+    }
+    fn rule(&self) -> String {
+        format!("Cases are programs from the core-language generator (all feature classes; the shapes of recorded crash findings switched off) and near-miss programs obtained by 1-2 type-changing mutations ({}). Oracle: if emit_mir returns Err the program is rejected with diagnostics (fine). If it is accepted: emit_bytecode and emit_wasm succeed; global initialisation and 1-16 dsp calls run on the VM without panic (the verif-hooks feature turns out-of-bounds state/global/upvalue accesses, cursor under/overflow and stale closure handles into panics), the WASM module loads and runs without trap; every sample has exactly the declared number of output words, and for unmutated programs that number equals the generator's declared dsp return width. A case that does not return within 20 s (twice, at the doubled limit) is a violation. Non-trivial = accepted and executed; accepted mutants are labelled.", prog::MUTATIONS.join(", "))
+    }
+    fn assumptions(&self) -> Vec<String> {
+        vec!["memory errors are observed through the bounds assertions of the verif-hooks feature (state storage, globals, open upvalues, closure handles) plus the debug assertions of the VM; accesses outside those sites are not instrumented".into(), "runtime preconditions documented by the runtime itself (scheduling into the past, split_head of an empty array) are not counted".into()]
+    }
+    fn required_classes(&self, _tier: Tier) -> Vec<&'static str> {
+        vec!["accepted", "rejected", "accepted-mutant", "ran", "mode:gen", "mode:mutant"]
+    }
 }
